@@ -126,6 +126,9 @@ func TestVerifC10(t *testing.T) {
 	if sel("e2e") {
 		c10RunE2EPart(t, env, tree, e2eLayouts)
 	}
+	if sel("rounds") {
+		c10RunE2ERoundsPart(t, env, tree, e2eLayouts[1:])
+	}
 	if sel("cpuset") {
 		c10RunCPUSetPart(env, tree, layouts, env.Pick(2, 3))
 	}
